@@ -56,7 +56,7 @@ def check_frame_writer(ctx, rule, P, fn_key, msg_param, sink_pred, sink_desc):
         and segs[2] == ("pad", pad, 0)
     )
     # accepted equivalent: resize(32,0) guarded by len<32 is normalised by the evaluator as ("resize",..): treat as weak
-    weak = not strong
+    weak = not strong and not B.clobbers(segs)
     if B.may_truncate(segs) and not ok:
         ctx.ob(rule, "%s/frame-truncation" % fn_key, False, "the framed payload goes through a step that can cut bytes off (resize to a length not provably >= the current length, truncate, drain, ..): %s" % B.show_nf(segs), where=where(fn, s.bb))
     ctx.ob(
@@ -310,7 +310,7 @@ def check_compute_y(ctx, rule, P):
         and B.peel(segs[1][1].a[1][0]).op == "param"
         and B.peel(segs[1][1].a[1][0]).a[1] == "t"
     )
-    weak = not B.is_strong(segs)
+    weak = not B.is_strong(segs) and not B.clobbers(segs)
     ctx.ob(rule, "compute_y/layout", ok and (want or weak), "challenge input = %s (pinned: to_bytes(u) ‖ to_le_bytes(t))" % B.show_nf(segs), where=where(fn), sample={"layout": B.show_nf(segs)}, weak=weak)
     ctx.ob(rule, "compute_y/salt", salt == pinned()["salts"]["pok"], "challenge salt = %r (pinned %r)" % (salt, pinned()["salts"]["pok"]), where=where(fn))
 
